@@ -1398,7 +1398,15 @@ func (e *Eng) evalTypeAssert(x *ast.TypeAssertExpr, c *ctx, commaOk bool) Val {
 	if x.Type == nil {
 		return v
 	}
-	t := e.info.TypeOf(x.Type)
+	var t types.Type
+	if c.spec {
+		t = e.resolveTypeExpr(x.Type, c)
+		if t == nil {
+			panic("spec: unknown type in assertion " + types.ExprString(x.Type))
+		}
+		return e.unboxAs(v, t, c)
+	}
+	t = e.info.TypeOf(x.Type)
 	e.declOnce("(declare-fun dyntype (Int) Int)")
 	ok := e.dynTypeIs(v, t)
 	if !commaOk && !e.isCommaOk(x) {
